@@ -56,7 +56,8 @@ SHAPES = {'quick': [(1, 1), (1, 2), (2, 1), (2, 2), (2, 3), (3, 2)],
 
 TABLE_LABELS = ['X', '.', '0', '1', '42', 'a b', 'ä', '€', ',', ';', '!', '"', "'",
                 'x\ty', '-', '!!', '=', '*', '<>', 'B', '\\', 'x\\n', '{}', 'None', 'True',
-                'lorem ipsum dolor sit amet ' * 4 + 'end']      # > 100 characters with blanks
+                'lorem ipsum dolor sit amet ' * 4 + 'end',      # > 100 characters with blanks
+                'e\u0301', '\u00e9']      # canonically equivalent, different strings
 CXT_LABELS = TABLE_LABELS + ['|', '#', 'a|b', '#x', 'a#b', '||',
                              # separators that are not line breaks of a text file (only \n / \r are)
                              'a\x0cb', 'a\u2028b', 'a\x85b', 'a\x1eb']
